@@ -388,6 +388,8 @@ def directed():
   auto = {"cls": "quantized_bits", "kw": {"bits": 4, "alpha": "auto_po2"}}
   po2 = {"cls": "quantized_po2", "kw": {"bits": 4}}
   relu = {"cls": "quantized_relu", "kw": {"bits": 4, "integer": 1}}
+  qb6 = {"cls": "quantized_bits", "kw": {"bits": 6, "integer": 1}}
+  qb8 = {"cls": "quantized_bits", "kw": {"bits": 8, "integer": 2}}
   layers = [
       ("vec", {"t": "QDense", "units": 3, "use_bias": True, "kq": qb, "bq": qb,
                "aq": relu}),
@@ -450,6 +452,20 @@ def directed():
       ("seq", {"t": "QLSTM", "units": 2, "return_sequences": False,
                "use_bias": True, "kq": qb, "rq": qb, "bq": qb, "sq": None,
                "bidir": True}),
+      # the quantized cells inside a stock keras RNN layer, every role with a
+      # different quantizer
+      ("seq", {"t": "QSimpleRNN", "units": 2, "return_sequences": False,
+               "use_bias": True, "kq": qb, "rq": po2, "bq": qb6, "sq": qb8,
+               "as_cell": True}),
+      ("seq", {"t": "QLSTM", "units": 2, "return_sequences": True,
+               "use_bias": True, "kq": qb, "rq": po2, "bq": qb6, "sq": qb8,
+               "as_cell": True}),
+      ("seq", {"t": "QGRU", "units": 2, "return_sequences": False,
+               "use_bias": True, "kq": qb, "rq": po2, "bq": qb6, "sq": qb8,
+               "as_cell": True}),
+      ("seq", {"t": "QLSTM", "units": 2, "return_sequences": False,
+               "use_bias": True, "kq": qb, "rq": qb6, "bq": None, "sq": None,
+               "as_cell": True}),
       # partially / not quantized recurrent layers (each role None in turn)
       ("seq", {"t": "QGRU", "units": 2, "return_sequences": False,
                "use_bias": True, "kq": None, "rq": None, "bq": None,
@@ -478,7 +494,8 @@ def directed():
     ops.append({"k": "RESTART", "route": "h5_fileobj"})
     out.append({"label": "directed:%s:%s" % (l["t"], json.dumps(
         {k: (v.get("cls", v.get("str")) if isinstance(v, dict) else v)
-         for k, v in l.items() if k in ("kq", "dq", "aq", "bidir")},
+         for k, v in l.items() if k in ("kq", "dq", "aq", "bidir", "as_cell",
+                                        "rq", "sq")},
         sort_keys=True)), "seed": 1, "world": _single(l, kind), "ops": ops})
   # every layer class with STRING-configured quantizers in every role, after an
   # interrupted noise schedule changed the live quantizer objects: the layer
